@@ -10,26 +10,39 @@ combination.
 """
 from __future__ import annotations
 
+import json
 import random
+import time
 
 from .. import core
 from .. import lexer_util as lu
-from .c12 import check_records, replay  # noqa: F401  (same case format)
+from .c12 import check_records
+from .c12 import replay as replay_case  # (same case format)
 
 
-def nl_cfgs(family="default"):
+# rendering hooks of the environment (finalize by the way it is called, autoescape): they process the
+# result of variable expressions and must never see template data (LexerRules!Printed / RenderChars)
+HOOKS = [("", False), ("plain", False), ("env", True), ("ctx", False), ("ctx", True), ("evalctx", False),
+         ("evalctx", True), ("", True)]
+
+
+def nl_cfgs(family="default", hooks=None):
+    """hooks: None = no finalize / autoescape; a list = one (finalize, autoescape) pair per configuration, in turn."""
     out = []
     for nl in ("n", "rn", "r"):
         for keep in (False, True):
+            fin, ae = hooks[len(out) % len(hooks)] if hooks else ("", False)
             # the automatic options must not matter for plain text: vary them along
-            out.append(lu.make_cfg(family, trim=keep, lstrip=(nl != "n"), keep=keep, nl=nl))
+            out.append(lu.make_cfg(family, trim=keep, lstrip=(nl != "n"), keep=keep, nl=nl, fin=fin, ae=ae))
     return out
 
 
 def run(ck):
     quick = ck.tier == "quick"
     rng = random.Random(ck.seed)
-    cfgs = nl_cfgs()
+    # (the six newline configurations carry: none, finalize(context, v), finalize(eval_ctx, v) + autoescape,
+    #  finalize(v), finalize(env, v) + autoescape, finalize(context, v) + autoescape)
+    cfgs = nl_cfgs(hooks=[("", False), ("ctx", False), ("evalctx", True), ("plain", False), ("env", True), ("ctx", True)])
     by_name = {c["name"]: c for c in cfgs}
 
     # (1) exhaustive: every string <= k over text, partial delimiters and the line-break forms
@@ -55,7 +68,7 @@ def run(ck):
     # (2) random long texts with Unicode / control whitespace, lone delimiter characters
     # (3) comments and raw blocks with bodies full of delimiter look-alikes
     fams = ["default", "asp", "multi"]
-    allcfgs = [c for f in fams for c in nl_cfgs(f)]
+    allcfgs = [c for f in fams for h in HOOKS for c in nl_cfgs(f, hooks=[h])]
     by_name.update({c["name"]: c for c in allcfgs})
     cases = []
     n_plain = 1000 if quick else 20000
@@ -68,7 +81,12 @@ def run(ck):
         cfg = allcfgs[ci]
         pre = [lu.text(rng.choice(["a", "n", "_", "an_", "rn", ""]))]
         post = [lu.text(rng.choice(["a", "n", "_", "n_a", "rn", "", "nn"]))]
-        if rng.random() < 0.5:
+        kind = rng.random()
+        if kind < 0.08:
+            # a variable tag between the texts: the one place the rendering hooks of the configuration act on
+            # (shows that the hook is installed: the data around it must still be verbatim)
+            mid = [lu.P("var", rng.choice(lu.SIGNS), rng.choice(("", "-")), rng.choice(lu.TAG_BODIES["var"]))]
+        elif kind < 0.54:
             body = "".join(rng.choice([b for b in lu.comment_bodies(cfg) if b] + ["r", "rn", "_w_"]) for _ in range(rng.randint(1, 3)))
             if body[:1] in "-+" or body[-1:] in "-+" or "".join(cfg["ce"]) in body + "".join(cfg["ce"])[:-1]:
                 body = "_" + body.strip("-+").replace("".join(cfg["ce"]), "a") + "_"
@@ -94,18 +112,218 @@ def run(ck):
                 ok = False
         if ok:
             cases.append({"ps": ps, "c": ci, "st": True})
-    for part in core.chunks(cases, 20000):
+    # (4) multi-token templates for the interleaved streams below, under 4 newline configurations that are equal
+    #     in everything else (same TLC batch: they lead the list, so their ids are 1..n)
+    share_cfgs = [lu.make_cfg(nl=nl, keep=keep) for nl, keep in SHARE_CFGS]
+    share_srcs = share_sources(rng, 40 if quick else 300)
+    share_cases = [{"ps": ps, "c": len(allcfgs) + ci, "st": True} for ps in share_srcs for ci in range(len(share_cfgs))]
+    allcfgs = allcfgs + share_cfgs
+    by_name.update({c["name"]: c for c in share_cfgs})
+    cases = share_cases + cases
+    share_recs = []
+    for k, part in enumerate(core.chunks(cases, 20000)):
         r, recs = lu.run_lexer("C11", "batch", cases=part, cfgs=allcfgs, timeout=3000)
         ck.add_tlc(r, f"Lexer (batch of {len(part)} generated texts / comments / raw blocks)")
         if len(recs) != len(part):
             raise core.MachineryError(f"TLC finished {len(recs)} of {len(part)} cases")
         check_records(ck, recs, by_name, kind="c11")
+        if k == 0:
+            share_recs = sorted((x for x in recs if x["id"] <= len(share_cases)), key=lambda x: x["id"])
     ck.extra["generated_cases"] = len(cases)
     ck.exhaustive = False
+
+    # the newline settings are those of the environment that renders, also while the token streams of
+    # several environments (lexers are shared objects, tokenising is lazy) are consumed interleaved
+    run_share(ck, rng, quick, share_cfgs, share_srcs, share_recs)
     ck.extra["excluded_shapes"] = [
         "comment bodies that contain the comment end or begin / end with '-' or '+'",
         "raw bodies that contain a complete endraw tag",
     ]
+
+
+# --------------------------------------------------------------------------
+# LexerShare: interleaved lazy token streams of environments that differ in the newline settings only
+# --------------------------------------------------------------------------
+SHARE_CFGS = [("n", False), ("rn", False), ("n", True), ("r", True)]      # [nl, keep]; default trim / lstrip
+SHARE_TEXT = ["an", "arn", "a_nan", "nra_n", "ar", "a&nn", "rn_a_n", "n"]
+
+
+def share_cfg_text(n_cfgs, keyfields, refresh, ndata, maxstreams, maxtouch, emit):
+    return (
+        "CONSTANTS\n"
+        "  CfgSeq <- MCShareCfgs\n"
+        f"  KeyFields = {{{', '.join(core.tla_str(k) for k in keyfields)}}}\n  Refresh = {core.tla_str(refresh)}\n"
+        f"  NData = {ndata}\n  MaxStreams = {maxstreams}\n  MaxTouch = {maxtouch}\n  Emit = {core.tla_str(emit)}\n"
+        "SPECIFICATION Spec\nINVARIANT C11_OwnNewlineSettings\nINVARIANT C11_CachedLexersMatchKey\n"
+    )
+
+
+def share_sources(rng, n):
+    """Piece sequences text (comment | raw block) text [comment text]: what splits plain text into several
+    data tokens.  Every text holds a line break (newline_sequence shows in every data token) and most
+    templates end with one (keep_trailing_newline shows)."""
+    out = []
+    while len(out) < n:
+        ps = []
+        for j in range(rng.choice([2, 2, 3])):
+            if j or rng.random() < 0.8:
+                t = rng.choice(SHARE_TEXT)
+                if ps and t[0] == "n" and lu.flat(ps[-1], lu.make_cfg())[-1:] == ["r"]:
+                    continue
+                ps.append(lu.text(t))
+            if j == 0 and rng.random() < 0.35:
+                ps += [lu.P("rawopen", "", "", "_R_"), lu.text(rng.choice(["a{{n", "an{#", "_nra"])), lu.P("rawclose", "", "", "_E_")]
+            else:
+                ps.append(lu.P("comment", "", "", rng.choice(["_a_", "_an_", "a"])))
+        ps.append(lu.text(rng.choice(["an", "a_n", "arn", "a", "nan", "ann"])))
+        out.append(ps)
+    return out
+
+
+def run_share(ck, rng, quick, cfgs, sources, recs):
+    """recs: what every configuration must make of every source (tokens and rendered text from Lexer.tla),
+    ordered by source, then configuration."""
+    from jinja2 import Environment
+    from jinja2.lexer import TokenStream
+    from jinja2.parser import Parser
+
+    opts = [lu.env_options(c) for c in cfgs]
+    if len(recs) != len(sources) * len(cfgs):
+        raise core.MachineryError("share sources: TLC did not finish every case")
+    cmap = lu.VARIANTS[0]
+    by_tokens = {}          # number of data tokens -> [per-configuration records of one source]
+    for k in range(len(sources)):
+        rs = sorted(recs[k * len(cfgs):(k + 1) * len(cfgs)], key=lambda x: x["id"])
+        counts = {sum(1 for t in x["toks"] if t[1] == "data") for x in rs}
+        if len(counts) == 1 and all(x["oc"][0] == "eof" for x in rs):
+            by_tokens.setdefault(counts.pop(), []).append(rs)
+
+    mc = core.workdir("C11", "share-in") / "MCLexerShare.tla"
+    mc.write_text("---- MODULE MCLexerShare ----\nEXTENDS LexerShare\nMCShareCfgs == "
+                  + core.tla_str([{"nl": nl, "keep": keep} for nl, keep in SHARE_CFGS]) + "\n====\n")
+    # vacuity guard: a lexer shared across the newline settings and re-pointed on every lookup must break the model
+    r2 = core.run_tlc("C11", "MCLexerShare", share_cfg_text(len(cfgs), [], True, 2, 2, 1, False), name="share-mutant",
+                      workers=2, extra_modules=[mc], timeout=600)
+    ck.add_tlc(r2, "LexerShare with one lexer re-pointed on every lookup (must violate)", expect_ok=False)
+    if "C11_OwnNewlineSettings" not in r2.invariant_violated:
+        raise core.MachineryError("C11_OwnNewlineSettings is vacuous: a shared, re-pointed lexer does not violate it")
+
+    hists = []
+    for ndata in ([2] if quick else [2, 3]):
+        if not by_tokens.get(ndata):
+            raise core.MachineryError(f"no generated template has {ndata} data tokens in every configuration")
+        r = core.run_tlc("C11", "MCLexerShare", share_cfg_text(len(cfgs), ["nl", "keep"], False, ndata, 2, 1, True),
+                         name=f"share{ndata}", coverage=quick, extra_modules=[mc], timeout=3000)
+        ck.add_tlc(r, f"LexerShare ({len(cfgs)} newline configurations, 2 lazy streams of {ndata} data tokens, 1 other use)")
+        if quick:
+            ck.require_coverage(r, ["Open", "Pull", "Touch", "Finish"])
+        hs = sorted(set(h for h in r.printed() if h.startswith("[")))
+        if not hs:
+            raise core.MachineryError("LexerShare.tla printed no histories")
+        hists += [(ndata, json.loads(h)) for h in hs]
+    ck.extra["share_histories_enumerated"] = len(hists)
+
+    def overlapped(h):
+        """another configuration acts while a stream is open"""
+        open_cfgs = []
+        for ev in h:
+            if ev[0] == "open":
+                open_cfgs.append(ev[1])
+            elif ev[0] == "touch" and any(c != ev[1] for c in open_cfgs):
+                return True
+        return len(set(open_cfgs)) > 1
+
+    budget = 8000 if quick else 60000
+    if len(hists) > budget:
+        hot = [x for x in hists if overlapped(x[1])]
+        rng.shuffle(hot)
+        cold = [x for x in hists if not overlapped(x[1])]
+        rng.shuffle(cold)
+        hists = hot[:budget - budget // 10] + cold[:budget // 10]
+        ck.exhaustive = False
+
+    t0 = time.time()
+    n = bad = 0
+    for ndata, h in hists:
+        pool = by_tokens[ndata]
+        envs = {}
+
+        def env_of(i):
+            if i not in envs:
+                envs[i] = Environment(**opts[i - 1])
+            return envs[i]
+
+        streams = []
+        problem = None
+        for step, ev in enumerate(h):
+            if ev[0] == "open":
+                rs = pool[rng.randrange(len(pool))]
+                rec = rs[ev[1] - 1]
+                src = lu.concretise(rec["raw"], cmap)
+                env = env_of(ev[1])
+                if ev[2] == "parser":
+                    st = {"how": "parser", "cfg": ev[1], "rec": rec, "src": src, "parser": Parser(env, src), "toks": []}
+                else:
+                    st = {"how": "lex", "cfg": ev[1], "rec": rec, "src": src, "gen": env.lex(src), "toks": []}
+                streams.append(st)
+            elif ev[0] == "pull":
+                st = streams[ev[1] - 1]
+                if st["how"] == "parser":
+                    st["toks"].append(next(st["parser"].stream))
+                else:
+                    for tok in st["gen"]:
+                        st["toks"].append(tok)
+                        if tok[1] == "data":
+                            break
+            else:
+                rs = pool[rng.randrange(len(pool))]
+                rec = rs[ev[1] - 1]
+                got = env_of(ev[1]).from_string(lu.concretise(rec["raw"], cmap)).render()
+                if got != lu.concretise(rec["out"], cmap):
+                    problem = (step, ev[1], "render", lu.concretise(rec["raw"], cmap), lu.concretise(rec["out"], cmap), got)
+        for k, st in enumerate(streams):
+            rec = st["rec"]
+            if st["how"] == "parser":
+                p = st["parser"]
+                while p.stream.current.type != "eof":
+                    st["toks"].append(next(p.stream))
+                p.stream = TokenStream(iter(st["toks"]), None, None)
+                try:
+                    got = env_of(st["cfg"]).from_string(p.parse()).render()
+                except Exception as e:  # noqa
+                    got = ["raise", type(e).__name__, str(e)[:200]]
+                exp = lu.concretise(rec["out"], cmap)
+                if got != exp and not problem:
+                    problem = (len(h), st["cfg"], f"render of stream {k + 1}", st["src"], exp, got)
+            else:
+                st["toks"] += list(st["gen"])
+                cmp = lu.compare_tokens(rec, ([tuple(t) for t in st["toks"]], None, None), cmap)
+                if cmp and not problem:
+                    problem = (len(h), st["cfg"], f"Environment.lex tokens of stream {k + 1}", st["src"], cmp[2]["exp"], cmp[2]["got"])
+        n += 1
+        if problem:
+            bad += 1
+            step, c, what, src, exp, got = problem
+            others = sorted({cfgs[ev[1] - 1]["name"] for ev in h if ev[0] in ("open", "touch") and ev[1] != c})
+            if bad <= 20:
+                ck.violation({"kind": "share-history", "history": h, "ndata": ndata, "config": cfgs[c - 1]["name"], "source": src,
+                              "expected": exp, "actual": got, "what": what},
+                             f"{cfgs[c - 1]['name']}: {what}: {src!r} gives {got!r}, its own newline settings give {exp!r} "
+                             f"(token streams interleaved with environments {others}; history {h})",
+                             {"kind": "share-history", "cfg": cfgs[c - 1]["name"]})
+        elif n % 499 == 0:
+            ck.sample({"history": h, "streams": [[cfgs[st["cfg"] - 1]["name"], st["src"]] for st in streams]})
+    ck.traces += n
+    ck.evaluations += n
+    ck.extra["share_histories_replayed"] = n
+    ck.extra["share_replay_s"] = round(time.time() - t0, 2)
+
+
+def replay(ck, rec):
+    if rec["case"].get("kind") == "share-history":
+        ck.violation(rec["case"], "interleaved histories are replayed by the full check only", rec.get("fingerprint"))
+        return
+    replay_case(ck, rec)
 
 
 def _chars(s):
